@@ -3,9 +3,10 @@ CONSTANTS
   Locked = TRUE
   Bodies <- BodiesT
   Modes <- AllModes
+  ValueChoices <- DefaultValues
   Seconds <- NoSecond
   TickMs <- Ticks2
-  MaxTicks = 6
+  MaxTicks = 5
   MaxPre = 0
 INVARIANT NoMix
 INVARIANT Joined
